@@ -6,7 +6,7 @@ import (
 	"strings"
 	"time"
 
-	"github.com/rulego/streamsql/utils/simrt"
+	"verif.local/simrt"
 )
 
 // Event-time window workloads and the watermark ledger shared by C01 (tumbling), C08 (sliding),
